@@ -284,13 +284,14 @@ def run_retry(acc, kind, m, first, reply_kind):
     acc.add('nontrivial', (kind, 'retry', label, first, reply_kind))
 
 
-def run_toggle(acc, kind, first):
+def run_toggle(acc, kind, first, unit=0):
     """the application changes client.broadcast_enable after the client was built: a request to unit 0 is read as the
-    CURRENT setting says -- not answered (nothing is read, no wait) when broadcasting, read exactly otherwise"""
+    CURRENT setting says -- not answered (nothing is read, no wait) when broadcasting, read exactly otherwise.  With
+    `unit` 255 (an ordinary address whatever the option says) the reply is always there and is always read exactly."""
     framing = FRAMING2[kind]
     clock = clients.VClock()
     m = dict(kind='req', fc=6, address=6, value=0x1234)
-    frame = adu.build(framing, 0, server_reply(m), tid=1)
+    frame = adu.build(framing, unit, server_reply(m), tid=1)
     state = dict(answer=True)
 
     def peer(line, data):
@@ -302,20 +303,22 @@ def run_toggle(acc, kind, first):
         clients.hook_logical_reads(c, line, lambda size: 'full')
         for step, now in enumerate((first, not first, first)):
             c.broadcast_enable = now
-            state['answer'] = not now              # a broadcast is never answered; with the option off unit 0 is an ordinary address
+            state['answer'] = (not now) or unit != 0     # a broadcast is never answered; with the option off unit 0 is an ordinary address
             line.read_sizes = []
             line.rx = []
             t0 = clock.t
             wit = dict(part='toggle', client=kind, first=first, step=step)
+            if unit:
+                wit['unit'] = unit
             try:
-                c.execute(bind.to_obj(dict(m, unit=0)))
+                c.execute(bind.to_obj(dict(m, unit=unit)))
             except Exception as e:   # noqa
                 acc.violation('C14/WriteSingleRegister/%s/normal/raise:%s' % (framing, type(e).__name__), wit, repr(e)[:100], kind)
                 return
             acc.inc('evaluations')
             asked = sum(s for s in line.read_sizes if s)
             waited = clock.t - t0
-            want = 0 if now else len(frame)
+            want = 0 if (now and unit == 0) else len(frame)
             if asked != want or waited >= 2.9:
                 acc.violation('C14/WriteSingleRegister/%s/normal/reads-after-broadcast-toggle' % framing, wit,
                               'broadcast_enable is %s now (client built with %s): the client asked for %r (reply %d bytes) and waited %.1f s'
@@ -358,6 +361,7 @@ def shard_e2e(args):
         if kind.startswith('serial-'):
             for first in (False, True):
                 run_toggle(acc, kind, first)
+                run_toggle(acc, kind, first, unit=255)
             for m in (dict(kind='req', fc=3, address=3, count=4), dict(kind='req', fc=1, address=1, count=19),
                       dict(kind='req', fc=16, address=8, count=3, byte_count=6, registers=[1, 2, 3]), dict(kind='req', fc=6, address=6, value=0x1234)):
                 for first in ('silent', 'wrong-unit'):
@@ -394,7 +398,7 @@ def replay(w):
     if w['part'] == 'e2e':
         run_e2e(acc, w['client'], m, w['reply'])
     elif w['part'] == 'toggle':
-        run_toggle(acc, w['client'], w['first'])
+        run_toggle(acc, w['client'], w['first'], w.get('unit', 0))
     elif w['part'] == 'retry':
         run_retry(acc, w['client'], m, w['first'], w['reply'])
     else:
